@@ -283,6 +283,33 @@ CHECKS = {
                          "gc/drop events (also injected inside handlers) against a link-graph "
                          "propagation model",
         design="4 (C20)"),
+    "C19": dict(
+        level="fault_enumeration",
+        text=("Histories of 3-14 documented-API calls are sampled by seed over a world with every "
+              "callback site of the statement: custom validators, a two-alternative Union, "
+              "_name_default and factory defaults, property getter/setter, cached observed "
+              "property, List/Dict/Set item validators at the k-th item, a stand-alone TraitList, "
+              "Supports with a two-factory adapter chain, delegation, observed child links, "
+              "handler (un)registration; static, on_trait_change and observe handlers. For each "
+              "sampled history the fault space is enumerated completely: every op x every "
+              "eligible site that fired on the fault-free twin x every ordinal k x {TraitError, "
+              "ValueError, AttributeError, RuntimeError} is injected on a fresh twin world "
+              "(prefix replayed, fault at (i,k), suffix continued). Deciding callbacks: the op "
+              "must raise the injected exception or TraitError, the full snapshot (values, "
+              "containers, caches by read-equivalence, registrations) must equal the pre-op "
+              "state, no handler may run, and every later op must behave exactly as on a twin "
+              "that never executed the op. Change handlers: outcome, snapshot and the set of "
+              "handlers run must equal the fault-free twin's, exactly one exception must be "
+              "routed, and the suffix must agree. Enumeration is exhaustive per sampled history; "
+              "histories are sampled."),
+        note=("Getters run for notifications (not explicit reads) and an injected TraitError in "
+              "a non-last Union alternative ('this alternative rejects') are not injection "
+              "points; raw TraitList notifiers are documented as not expected to raise and are "
+              "not change handlers; default materialisation is not an effect."),
+        technique=TECH + "twin worlds with exhaustive enumeration of (op, callback site, "
+                         "ordinal, exception class) injections per sampled history, "
+                         "snapshot/suffix comparison against fault-free and skip twins",
+        design="4 (C19)"),
 }
 
 NOT_APPLICABLE = {
